@@ -112,10 +112,10 @@ func parent() int {
 						path := filepath.Join(replayDir(), "C20-hang.json")
 						jb, _ := json.MarshalIndent(map[string]any{"property": "C20", "signature": "C20/hang/cpu-bound", "message": "an execution did not finish in real time (the scan spins without blocking)", "execution": string(b)}, "", " ")
 						os.WriteFile(path, jb, 0o644)
-						fmt.Printf("VIOLATION property=C20 replay=%s\n  signature: C20/hang/cpu-bound\n  execution %s did not finish within the real-time stall limit\n", path, string(b))
+						fmt.Printf("VIOLATION property=C20 replay=%s\n  signature: C20/hang/cpu-bound\n  execution %s used more CPU time than the stall limit allows without finishing\n", path, string(b))
 						return 1
 					}
-					fmt.Fprintf(os.Stderr, "HARNESS-ERROR: execution %s did not finish within the real-time stall limit (the code under test spins); this property's check cannot proceed\n", string(b))
+					fmt.Fprintf(os.Stderr, "HARNESS-ERROR: execution %s used more CPU time than the stall limit allows without finishing (the code under test spins); this property's check cannot proceed\n", string(b))
 					return 2
 				}
 			}
@@ -372,8 +372,10 @@ func TestWorker(t *testing.T) {
 	go func() {
 		for {
 			time.Sleep(5 * time.Second)
+			// measured in CPU time of this (single-threaded) worker, not by the wall clock: a frozen or badly
+			// overloaded machine must not look like spinning code
 			since := h.InFlightSince.Load()
-			if since != 0 && time.Now().UnixNano()-since > int64(stall)*int64(time.Second) {
+			if since != 0 && h.CPUNow()-h.InFlightCPU.Load() > int64(stall)*int64(time.Second) && h.InFlightSince.Load() == since {
 				desc, _ := h.InFlightDesc.Load().(string)
 				os.WriteFile(os.Getenv("VERIF_OUT")+".hang", []byte(desc), 0o644)
 				os.Exit(3)
